@@ -153,3 +153,39 @@ func VP_C12_BlockBounds() {
 	vp.Assert(vp.All(r.MinVal.X <= px, px <= r.MaxVal.X, r.MinVal.Y <= py, py <= r.MaxVal.Y, r.MinVal.Z <= pz, pz <= r.MaxVal.Z), "block bounds enclose every lattice point of the block")
 	vp.Reach("end")
 }
+
+// VP_C12_DCBuffer: dual contouring gives the same faces whatever the slab
+// buffer size (every BufRows from the minimum of 4 up to the whole lattice,
+// selected through a symbolic BufferSize) and whatever MaxGos; the result is
+// a closed oriented manifold. The solid is a box tall enough in z that small
+// buffers need several window shifts.
+func VP_C12_DCBuffer() {
+	solid := NewRect(XYZ(-0.43, -0.37, -0.9), XYZ(0.41, 0.33, 1.2))
+	mk := func(buf, gos int) *Mesh {
+		dc := &DualContouring{
+			S:          SolidSurfaceEstimator{Solid: solid},
+			Delta:      0.5,
+			NoJitter:   true,
+			MaxGos:     gos,
+			BufferSize: buf,
+			Clip:       true,
+		}
+		return dc.Mesh()
+	}
+	ref := mk(0, 1)
+	vp.Assert(ref.NumTriangles() > 0, "reference mesh is not empty")
+	vp.Assert(!ref.NeedsRepair() && len(ref.InconsistentEdges()) == 0, "dual contouring output is a closed oriented manifold")
+	// lattice is 4 x 4 x 7 points: 16 per slab; BufRows = clamp(buf/16, 4, 7)
+	rows := vp.Int("bufRows", 1, 8)
+	gos := vp.Int("maxGos", 1, 3)
+	got := mk(vp.Concrete(rows)*16, vp.Concrete(gos))
+	vp.Assert(got.NumTriangles() == ref.NumTriangles(), "same number of faces for every buffer size and MaxGos")
+	same := true
+	got.Iterate(func(t *Triangle) {
+		if len(ref.Find(t[0], t[1], t[2])) != 1 {
+			same = false
+		}
+	})
+	vp.Assert(same, "same faces for every buffer size and MaxGos")
+	vp.Reach("end")
+}
